@@ -80,14 +80,15 @@ structure BuildSt.Step (h : Heap) (st st' : BuildSt) : Prop where
   stackEq : st'.onStack = st.onStack
   logPrefix : st.log <+: st'.log
   memoMono : ∀ i r, memoGet st.memo i = some r → memoGet st'.memo i = some r
+  outPrefix : st.out <+: st'.out
 
 theorem BuildSt.Step.refl {h : Heap} {st : BuildSt} (hi : st.Inv h) : BuildSt.Step h st st :=
-  ⟨hi, rfl, List.prefix_refl _, fun _ _ h => h⟩
+  ⟨hi, rfl, List.prefix_refl _, fun _ _ h => h, List.prefix_refl _⟩
 
 theorem BuildSt.Step.trans {h : Heap} {a b c : BuildSt} (h1 : BuildSt.Step h a b)
     (h2 : BuildSt.Step h b c) : BuildSt.Step h a c :=
   ⟨h2.inv, h2.stackEq.trans h1.stackEq, h1.logPrefix.trans h2.logPrefix,
-   fun i r h => h2.memoMono i r (h1.memoMono i r h)⟩
+   fun i r h => h2.memoMono i r (h1.memoMono i r h), h1.outPrefix.trans h2.outPrefix⟩
 
 /-- Result of visiting a value: what the memo says about it afterwards. -/
 def Memoized (st : BuildSt) (v : GVal) (r : BVal) : Prop :=
@@ -154,7 +155,7 @@ theorem buildVal_step (h : Heap) (fails : List Nat) (fuel : Nat) :
               rename_i hop
               have hop' : o.kind = .opaque := by simpa using hop
               cases hb
-              refine ⟨⟨⟨hi.nodup, ?_, ?_, ?_, ?_, hi.ordered, ?_, ?_⟩, rfl, List.prefix_refl _, ?_⟩, ?_⟩
+              refine ⟨⟨⟨hi.nodup, ?_, ?_, ?_, ?_, hi.ordered, ?_, ?_⟩, rfl, List.prefix_refl _, ?_, List.prefix_refl _⟩, ?_⟩
               · intro k hk
                 exact memoGet_cons_isSome _ _ _ _ (hi.logged k hk)
               · intro j hj
@@ -279,7 +280,8 @@ theorem buildVal_step (h : Heap) (fails : List Nat) (fuel : Nat) :
                   · split at hb
                     · cases hb
                     · cases hb
-                      refine ⟨⟨⟨?_, ?_, ?_, closed' _, ?_, ?_, fresh' _, inj'⟩, herase, ?_, memo' _⟩, ?_⟩
+                      refine ⟨⟨⟨?_, ?_, ?_, closed' _, ?_, ?_, fresh' _, inj'⟩, herase, ?_, memo' _,
+                        sc.outPrefix.trans (List.prefix_append _ _)⟩, ?_⟩
                       · exact List.nodup_append.mpr ⟨sc.inv.nodup, by simp, by
                           intro a ha b hb'; simp at hb'; subst hb'
                           intro e; subst e; exact hinotlog ha⟩
@@ -308,7 +310,8 @@ theorem buildVal_step (h : Heap) (fails : List Nat) (fuel : Nat) :
                 · rename_i hncfg
                   have hncfg' : o.kind ≠ .cfg := by simpa using hncfg
                   cases hb
-                  refine ⟨⟨⟨sc.inv.nodup, ?_, ?_, closed' _, ?_, sc.inv.ordered, fresh' _, inj'⟩, herase, sc.logPrefix, memo' _⟩, ?_⟩
+                  refine ⟨⟨⟨sc.inv.nodup, ?_, ?_, closed' _, ?_, sc.inv.ordered, fresh' _, inj'⟩, herase, sc.logPrefix, memo' _,
+                    sc.outPrefix.trans (List.prefix_append _ _)⟩, ?_⟩
                   · intro k hk
                     exact memoGet_cons_isSome _ _ _ _ (sc.inv.logged k hk)
                   · simpa [herase] using stack' _
